@@ -3,3 +3,4 @@ import AnonCreds.Model.Claims
 import AnonCreds.Model.Wire
 import AnonCreds.Props.C18
 import AnonCreds.Props.C20
+import AnonCreds.Props.C14
